@@ -1,13 +1,13 @@
 """Source of MANIFEST.json (regenerate with: python3-vt tools/mkmanifest.py)."""
 
 ENGINES = [
-    dict(name='tabx', path='/verif/mc/tabx.py', serves_properties=['C01', 'C02', 'C03', 'C09', 'C16', 'C17'],
+    dict(name='tabx', path='/verif/mc/tabx.py', serves_properties=['C01', 'C02', 'C03', 'C06', 'C09', 'C10', 'C11', 'C16', 'C17', 'C19', 'C20'],
          kind_free_text='stateless explorer of tableau executions: every tie among equally ranked rule targets is a choice point (guarded scheduler seam in Rule.target), deviation-bounded DFS with replay from a fresh tableau'),
-    dict(name='refsem', path='/verif/mc/refsem', serves_properties=['C01', 'C02', 'C03', 'C04', 'C05', 'C07'],
+    dict(name='refsem', path='/verif/mc/refsem', serves_properties=['C01', 'C02', 'C03', 'C04', 'C05', 'C07', 'C08'],
          kind_free_text='independent reference semantics: literal truth tables from the literature, recursive evaluator, exhaustive finite countermodel search'),
     dict(name='gen', path='/verif/mc/gen.py', serves_properties=['C01', 'C02', 'C03', 'C09', 'C10', 'C11', 'C12', 'C13', 'C15'],
          kind_free_text='bounded-exhaustive generators of sentences, arguments and strings'),
-    dict(name='seqx', path='/verif/mc/seqx.py', serves_properties=['C06', 'C13', 'C14', 'C17', 'C18'],
+    dict(name='seqx', path='/verif/mc/seqx.py', serves_properties=['C06', 'C08', 'C13', 'C14', 'C17', 'C18', 'C20'],
          kind_free_text='explicit-state BFS over operation sequences on the real object in lock-step with a reference model'),
 ]
 
@@ -103,5 +103,31 @@ _mc('C17', 'tabx+seqx',
     'Every max_steps in {None,0,-1,1..n+1} x {build, step} on ~450 proofs compared with the unlimited run; every point at which a timeout check can fire (virtual clock, with/without model building); '
     'BFS to depth 4/5 over 12 lifecycle operations from 8 initial configurations against the documented IllegalStateError conditions and finished/started invariants.',
     'Trusted: time owned through tools.timing._time; real-time behaviour not exercised.')
+
+_mc('C08', 'seqx+refsem',
+    'explicit-state exploration of model-API histories: every multiset of <= k operations in every order, finish(), lock-step comparison with a recursive reference evaluator over the library tables',
+    'Per logic every multiset of <= 2 (quick) / 3 (thorough) set-value / add-access operations (all values, worlds 0..1/2, access pairs over three worlds) in every order: consistent histories give a finished model '
+    'whose value_of() on ~30 sentences per world equals the recursion from the library\'s own truth tables plus the documented quantifier/modal clause, whose access relation is exactly the frame closure, '
+    'whose identity is an equivalence respected by predicates (classical family), and all orders agree.',
+    'Trusted: mc/refsem evaluator and generalisation clauses; operator tables are taken from the library here (C07 checks them).')
+_mc('C10', 'tabx',
+    'differential exploration between executions of the real prover over bounded-exhaustive argument families: reflexivity, monotonicity, 12 injective renamings',
+    'Every 8th (quick) / 2nd (thorough) argument of the plan incl. FO-modal ones: conclusion among the premises at every position is valid; a valid argument stays unrefuted under every extra premise of a pool at every position; '
+    'renaming letters, constants, predicates, variables (incl. subscript shifts) keeps the outcome class.',
+    'No reference semantics involved; limit-only outcomes are disregarded.', level='exploration')
+_mc('C11', 'tabx',
+    'one verdict table per logic over bounded-exhaustive argument families, joined over every declared (weaker, stronger) pair',
+    'All 97 declared pairs (thorough: transitive closure) x the arguments both logics\' families contain: valid in the weaker logic implies not refuted by a limit-free open branch (propositional: valid) in the stronger one.',
+    'Default options and schedule only; vocabulary = the weaker logic\'s own argument families.', level='exploration')
+_mc('C19', 'tabx',
+    'enumeration of finished tableaux (complete, limit-flagged, cut after 1 and 3 steps) x writer configurations alive at once; independent re-reading of the text output against the tree',
+    'About 6 000 (quick) tableaux x 8-13 writer configurations rendered twice: no exception, identical text, and for the text format one line per tree structure containing each node\'s written sentence, world, designation and access '
+    'marks in order, exactly one closure mark per closed branch and none elsewhere.',
+    'Tree <-> branch agreement is checked by C16; html/latex are checked for determinism and absence of errors only.', level='exploration')
+_mc('C20', 'seqx',
+    'enumeration of finished models (C08\'s model-API histories in every order, plus models read off open branches) with the export compared entry by entry against value_of()',
+    'About 70 000 (quick) finished models: get_data() lists exactly the worlds and access pairs, every known atom/opaque with the evaluated value, a tuple in P+/P- iff the predication evaluates to a true-/false-containing value, sorted, '
+    'equal on repetition and across operation orders.',
+    'Extensions range over tuples of the model\'s own constants.', level='exploration')
 
 NOT_APPLICABLE = {}
